@@ -7,21 +7,21 @@ from vlib import dtcodec, gen
 
 META = {
     'level_text': 'Theorems for every lawful float carrier, every well-formed datatype tree of any depth, every JSON value / Python '
-                  'value offered and every previous value from the value set: accept_sound / validate_sound (an accepted value '
-                  'lies in the declared value set), accept_denotes / validate_denotes / import_denotes (it is the value that was '
-                  'offered: no string taken as a number, no fraction truncated, strict base64, equal lengths, key-wise structs), '
-                  'accept_total / validate_total / import_total / call_total (only bad-value errors), validate_idem / call_idem '
-                  '(validating a validated value returns it unchanged).  The models of import_value / validate / __call__ are tied to '
-                  'frappy/datatypes.py by a correspondence run on the real classes, and the Lean monitors (decide of the same '
-                  'Props) judge every outcome of the implementation.',
-    'level_note': 'Trusted: Lean kernel + axioms propext/Classical.choice/Quot.sound; the order / rounding laws of LawfulFloatOps for '
-                  'binary64 (proved for the exact carrier Rat, re-tested on the doubles drawn); idempotence for scaled types assumes the '
-                  'grid law round(k*scale/scale) = k on the declared index range (DType.GridExact).  lazy_number_validation stays '
-                  'False.  Strings with lone surrogates are judged for totality only.',
+                  'value offered and every previous value that is absent or in the value set: accept_sound / validate_sound (an '
+                  'accepted value lies in the declared value set), validate_denotes + accept_denotes_partial (the accepted value is '
+                  'the Python value that was offered / that import_value produced: numbers numerically equal or clamped from inside the '
+                  'documented tolerance, sequences element-wise of equal length, structs key-wise with previous), accept_total / '
+                  'validate_total / import_total / call_total (only bad-value errors).  NOT proved, kept as *_statement and judged '
+                  'by the monitors on every outcome of the implementation only: import denotation (wireDenotesB: no string taken as a '
+                  'number, no fraction truncated, strict base64, equal lengths) and idempotence (re-validation returns the value '
+                  'unchanged).  The models of import_value / validate / __call__ are tied to frappy/datatypes.py by a correspondence run '
+                  'on the real classes; the Lean monitors are `decide` of the specification Props themselves.',
+    'level_note': 'Trusted: Lean kernel + axioms propext/Classical.choice/Quot.sound; the 16 order / rounding laws of LawfulFloatOps '
+                  'for binary64 (all proved for the exact carrier Rat).  lazy_number_validation stays False.  Strings with lone '
+                  'surrogates are judged for totality only.  Previous values are values that validate accepts.',
     'trusted': [
         'binary64 restricted to non-NaN values satisfies the laws of LawfulFloatOps (FrappyModel/Base/Num.lean): order laws, '
         'monotonicity of x/scale, k*scale, round(); proved for the Rat carrier',
-        'grid law for scaled types (hypothesis DType.GridExact of validate_idem): round((k*scale)/scale) = k for the grid indices in range',
         'FrappyDrive/FloatInst.lean: Float instance of FloatOps (exact ofInt/round/trunc computed from bit patterns)',
         'Base64.decode? = base64.b64decode(str, validate=True) (library behaviour, compared on every blob case)',
     ],
